@@ -95,26 +95,26 @@ def loopSideAPI : List String := [
 /-- functions that may contain direct-mode code (`localUseChan = false`) -/
 def directModeAPI : List String := ["event.LocalEventCenter.Publish"]
 
+/-- reviewed uses of function values (literals, method values, named functions, closures returned by
+a factory alike).  `stored:field F` — the value is kept in struct field `F` (directly or through
+wrappers that only forward it / build the struct) and is run by whoever calls that field — is
+accepted exactly when `field F` is a reviewed service-code key, so it needs no entry here. -/
 def reviewedLitKinds : List String := [
   "go", "defer", "call",
   "timer:time.AfterFunc",
-  "sync:sync.Map.Range", "sync:event.LocalECList.Range",
-  "arg:sche.NewFuncSelector",               -- run by FuncSelector.DoTask
-  "arg:sche.Sche.Post",                     -- run by Sche.doTask
-  "arg:timer.NewTimerObj", "arg:timer.Mgr.AddTimer", "arg:timer.Mgr.After",   -- stored in Obj.CB, run by timer.Mgr.do
-  "arg:apimapper/apientry.CallWithSerialize",        -- completion callback handed to the handler
-  "funcvalue:arg:iface actor.Dispatcher.Schedule",   -- m.processMessages handed to the dispatcher
-  "return:mailbox.Producer",                -- mailbox constructor closure
-  "arg:actor.PropsFromProducer"]            -- actor construction
+  "sync:sync.Map.Range",
+  "arg:apimapper/apientry.CallWithSerialize",   -- completion callback handed to the handler
+  "arg:iface actor.Dispatcher.Schedule",        -- m.processMessages handed to the dispatcher
+  "arg:actor.WithMailbox",                      -- mailbox constructor closure
+  "arg:actor.PropsFromProducer"]                -- actor construction
 
-/-- stored closure: (site key that calls it, literal kind that stores it) -/
+def kindReviewed (k : String) : Bool :=
+  reviewedLitKinds.contains k || svcKeys.any fun key => k == "stored:" ++ key
+
+/-- stored closure: (site key that calls it, use kind that stores it); in addition every
+`field F` site dispatches to every value of kind `stored:field F` -/
 def dispatchRules : List (String × String) := [
-  ("field sche.FuncSelector.fun", "arg:sche.NewFuncSelector"),
-  ("field sche.RunTask.cb", "arg:sche.Sche.Post"),
-  ("value func()", "funcvalue:arg:iface actor.Dispatcher.Schedule"),
-  ("field timer.Obj.CB", "arg:timer.NewTimerObj"),
-  ("field timer.Obj.CB", "arg:timer.Mgr.AddTimer"),
-  ("field timer.Obj.CB", "arg:timer.Mgr.After")]
+  ("value func()", "arg:iface actor.Dispatcher.Schedule")]
 
 /-- trusted link through proto.actor: the mailbox's invoker (the actor context) calls the actor's `Receive` -/
 def frameworkLinks : List (String × String) := [
@@ -165,10 +165,12 @@ def spawnEdges (G : CallGraph) : List (Nat × Nat) :=
   (G.litParents.filter fun p => (spawnedRoots G).contains p.1).map fun p => (p.2, p.1)
 
 def ruleIdx (G : CallGraph) : List (Nat × Nat) :=
-  dispatchRules.filterMap fun r =>
+  (dispatchRules.filterMap fun r =>
     match indexOf G.keys r.1, indexOf G.kinds r.2 with
     | some a, some b => some (a, b)
-    | _, _ => none
+    | _, _ => none) ++
+  (G.kinds.zipIdx.flatMap fun kd => G.keys.zipIdx.filterMap fun k =>
+    if kd.1 == "stored:" ++ k.1 then some (k.2, kd.2) else none)
 
 def linkIdx (G : CallGraph) : List (Nat × Nat) :=
   frameworkLinks.filterMap fun r =>
@@ -199,7 +201,7 @@ def entryCheck (G : CallGraph) : Bool := entryCheckWith G (danger G)
 def reviewedCheck (G : CallGraph) : Bool :=
   G.keys.all (fun k => svcKeys.contains k || utilKeys.contains k) &&
   (G.sites ++ G.directSites).all (fun s => s.2 < G.keys.length) &&
-  G.kinds.all reviewedLitKinds.contains &&
+  G.kinds.all kindReviewed &&
   G.lits.all (fun l => l.2 < G.kinds.length) &&
   G.odd.isEmpty &&
   (G.directCalls.all fun e => directModeAPI.contains (nameOf G e.1)) &&
@@ -216,7 +218,7 @@ def loopSites (G : CallGraph) : List Nat := (G.sites.filter fun s => (loopK G).c
 
 /-- closures handed to `Sche.Post` -/
 def postedLits (G : CallGraph) : List Nat :=
-  match indexOf G.kinds "arg:sche.Sche.Post" with
+  match indexOf G.kinds "stored:field sche.RunTask.cb" with
   | some k => (G.lits.filter fun l => l.2 == k).map (·.1)
   | none => []
 
@@ -239,7 +241,7 @@ def offenders (G : CallGraph) : List String :=
 
 def unreviewed (G : CallGraph) : List String :=
   (G.keys.filter fun k => !(svcKeys.contains k || utilKeys.contains k)) ++
-  (G.kinds.filter fun k => !(reviewedLitKinds.contains k)) ++ G.odd ++
+  (G.kinds.filter fun k => !(kindReviewed k)) ++ G.odd ++
   ((G.directCalls.filter fun e => !(directModeAPI.contains (nameOf G e.1))).map fun e => "direct-mode call in " ++ nameOf G e.1) ++
   ((G.facts.filter fun f => !f.2).map fun f => "fact no longer holds: " ++ f.1)
 
